@@ -9,9 +9,17 @@
     VMNetconfig.validate                  -> genValidateHost / genValidateAddrs / genValidateIface / genValidate
                                                                                               (validate)
 
-`extract_net(ctx)` regenerates lean/I2N/Extracted/GenNet.lean from /repo's CURRENT source (PYGEN_NETCONFIG_SRC names
-another file for mutation sanity runs); it is called by `extract(ctx)` of harness/props/c18.py.  The equality theorems
-`allocate_matches_source`, … are at the end of lean/I2N/Props/C18.lean.
+and for avocado_i2n/vmnet/network.py (generated file lean/I2N/Extracted/GenNetwork.lean):
+
+    VMNetwork.reattach_interface          -> genReattachProxySelected / genReattachAttach / genReattachProxyPart /
+                                             genReattachProxy / genReattach                          (reattach)
+    VMNetwork.integrate_node              -> genIntegrateTest / genIntegrateFound / genIntegrateNew / genFindNc /
+                                             genPlace / genPlaceAll / genIntegrateNode               (integrateNode)
+
+`extract_net(ctx)` regenerates lean/I2N/Extracted/GenNet.lean and GenNetwork.lean from /repo's CURRENT source
+(PYGEN_NETCONFIG_SRC / PYGEN_NETWORK_SRC name another file for mutation sanity runs); it is called by `extract(ctx)` of
+harness/props/c18.py.  The equality theorems `allocate_matches_source`, …, `validate_matches_source`,
+`reattach_matches_source`, `integrateNode_matches_source` are at the end of lean/I2N/Props/C18.lean.
 
 HOW ADDRESSES ARE REPRESENTED (the atom table; trusted, see the docstring of pygen.py).  The hand model
 (lean/I2N/Model/Net.lean) has an IPv4 address, a dotted string and a netmask as ONE natural number.  The generated
@@ -42,9 +50,10 @@ definitions use Python's integers (`Int`: the difference `int(source_ip) - int(n
 NEVER pinned: the order of the tests, the comparisons (`==`, `!=`, `and`), the subtraction / addition of
 `translate_address`, the `zfill` width, the first-free search and which exception ends it.
 
-Three functions are outside pygen's statement subset and are CUT by this module (mechanically, failing closed, like
-harness/pygen_pxcmd.py): the for/else of `get_allocatable_address`, the getter half of `mask_bit`, and the loops of
-`validate`; the cut pieces are handed to `pygen.translate` as synthetic functions whose bodies are the very AST nodes
+Five functions are outside pygen's statement subset and are CUT by this module (mechanically, failing closed, like
+harness/pygen_pxcmd.py): the for/else of `get_allocatable_address`, the getter half of `mask_bit`, the loops / the
+address dictionary / the asserts of `validate` (section (5)), `reattach_interface` (assigns to its parameters; section
+(6)) and the nested for/else of `integrate_node` (section (7)); the cut pieces are handed to `pygen.translate` as synthetic functions whose bodies are the very AST nodes
 of the source, and a fixed Lean skeleton (printed in the generated file) puts them together.
 """
 import ast
